@@ -38,7 +38,7 @@ ASSUMPTIONS = [
 ]
 TIERS = {"quick": (160, 80, 120), "thorough": (10000, 600, 180)}
 
-KEEP_CANDIDATES = ["power", "flux", "vP0", "vP1", "vF0", "temperatureInC", "numberDensities", "height", "keff", "vSent", "mgFlux", "vP2", "id", "mult"]
+KEEP_CANDIDATES = ["power", "flux", "vP0", "vP1", "vF0", "temperatureInC", "numberDensities", "height", "keff", "vSent", "mgFlux", "vP2", "id", "mult", "xsType", "envGroupNum"]
 SET_PARAMS = ["vP0", "vP1", "vP2", "vF0", "vI0", "vS0", "vSent", "vN0"]  # (vN0 has no default: unset until assigned)
 
 
@@ -102,7 +102,7 @@ def gen_plan(rng, index, tier):
         elif r < 0.55:
             steps.append({"op": "setp", "level": rng.choice(["reactor", "core", "assembly", "block", "component"]), "idx": rng.randrange(1000), "param": rng.choice(SET_PARAMS), "vkind": rng.choice(["float", "int", "arr", "dict", "none", "str", "list", "arrn", "arrnudge", "arrnudge", "arrtrace"]), "u": uid})
         elif r < 0.62:
-            steps.append({"op": "std", "idx": rng.randrange(1000), "which": rng.choice(["power", "flux", "mgFlux", "keff"]), "u": uid})
+            steps.append({"op": "std", "idx": rng.randrange(1000), "which": rng.choice(["power", "flux", "mgFlux", "keff", "xsType", "envGroup"]), "u": uid})
         elif r < 0.70:
             steps.append({"op": "ndens", "idx": rng.randrange(1000), "nuc": rng.choice(["U235", "U238", "ZR", "FE", "NA23"]), "factor": rng.choice([0.5, 1.5, 2.0])})
         elif r < 0.77:
@@ -389,6 +389,11 @@ class Runner:
                 b.p.flux = 1e9 + st["u"]
             elif st["which"] == "mgFlux":
                 b.p.mgFlux = np.array([1.0 * st["u"], 2.0])
+            elif st["which"] == "xsType":
+                # one of a pair of parameters whose setters write each other (letter and number)
+                b.p.xsType = "ABCDEFGH"[st["u"] % 8]
+            elif st["which"] == "envGroup":
+                b.p.envGroup = "ABCDEFGH"[(st["u"] // 2) % 8]
             else:
                 r.core.p.keff = 1.0 + 1e-4 * st["u"]
             self.edits += 1
